@@ -25,8 +25,11 @@ from runner import Inconclusive, nondet_inputs
 
 
 def run_cb(sess, spec, K=2, loop_bound=3, timeout_s=1800, max_paths=3000000, scenario=None, first_only=True,
-           flavor='rel', features=(), validate=True):
-    scenario = scenario or (spec.get('name') + '@cb%d' % K)
+           flavor='rel', features=(), validate=True, subject=None):
+    """subject=tid (freeze mode, C09): thread tid is not scheduled with the others; at every gated step of the others
+    (and whenever one of them finishes) the execution forks into 'every unfinished thread is suspended for ever here,
+    the subject runs alone'. The subject exceeding a loop bound or reaching a blocking call is the violation."""
+    scenario = scenario or (spec.get('name') + ('@cb%d' % K if subject is None else '@frz%d' % K))
     t0 = time.time()
     eng = sess.engine(loop_bound=loop_bound, max_paths=max_paths)
     eng.auto_merge = False
@@ -64,10 +67,12 @@ def run_cb(sess, spec, K=2, loop_bound=3, timeout_s=1800, max_paths=3000000, sce
     sw0 = ex.fresh('sw', 8)
     after = {int(k): int(v) for k, v in spec.get('after', {}).items()}   # thread k is started once thread v has finished
     for first in sorted(bodies):
-        if first in after:
+        if first in after or first == subject:
             continue
         s = base.fork()
-        s.stacks = {t: [ex.Frame(bodies[t])] for t in bodies if t != first and t not in after}
+        s.stacks = {t: [ex.Frame(bodies[t])] for t in bodies if t != first and t not in after and t != subject}
+        if subject is not None:
+            s.cb_subject = (subject, bodies[subject])
         s.cb_pending = {t: (after[t], bodies[t]) for t in after}
         s.frames = [ex.Frame(bodies[first])]
         s.thread = first
@@ -113,6 +118,9 @@ def run_cb(sess, spec, K=2, loop_bound=3, timeout_s=1800, max_paths=3000000, sce
         v = conc.ConcViolation(scenario, d['kind'], d['ident'], d['msg'], inputs={'nondet': {str(k): x for k, x in nd.items()}},
                                thread=d['thread'], where=d['where'], schedule=d['schedule'], spec=spec, nondet=nd)
         v.trace = d['trace']
+        if d.get('frozen') is not None:
+            v.freeze = d['frozen']
+            v.subject_thread = subject
         violations.append(v)
     tv_ok = 0
     tv_problem = None
@@ -171,14 +179,20 @@ def _worker(i):
 def _dfs(eng, spec, scenario, final, work, deadline, first_only, acc, stop_at=None, bfs=False):
     """Explore the states in `work` (modified in place). With stop_at: return as soon as that many states are
     pending (the caller distributes them)."""
-    while work:
-        if stop_at is not None and len(work) >= stop_at:
+    deferred = []
+    while True:
+        if not work or (stop_at is not None and len(work) + len(deferred) >= stop_at):
+            work.extend(deferred)
             return
         if time.time() > deadline:
             acc['inconclusive'].append('time budget exhausted')
             del work[:]
             return
         s = work.pop(0) if bfs else work.pop()
+        if bfs and s.cb_frozen is not None and s.status == 'running':
+            # freeze mode: the solo run of the subject is a leaf task; leave it to the workers
+            deferred.append(s)
+            continue
         phase = getattr(s, 'phase', 'threads')
         try:
             site, forks = eng.run(s)
@@ -189,7 +203,10 @@ def _dfs(eng, spec, scenario, final, work, deadline, first_only, acc, stop_at=No
         if forks:
             for f_ in forks:
                 f_.phase = phase
-                f_.nforks += 1
+                # a scheduling decision is not a data-dependent fork: it must not make concrete loops look symbolic
+                if not getattr(f_, 'sched_fork', False):
+                    f_.nforks += 1
+                f_.sched_fork = False
             work.extend(forks)
             continue
         if s.status == 'done' and phase == 'threads' and final:
@@ -210,9 +227,16 @@ def _dfs(eng, spec, scenario, final, work, deadline, first_only, acc, stop_at=No
         if s.status == 'done' and (acc['sample'] is None or s.cb_switches > acc['sample']['switches']):
             sched = schedule_of(eng, s)
             acc['sample'] = {'scenario': scenario, 'switches': s.cb_switches, 'one_explored_schedule_thread_ids': sched[:80],
-                             'schedule': sched, 'log': event_log(eng, s)}
+                             'schedule': sched, 'log': event_log(eng, s), 'frozen': s.cb_frozen, 'subject': s.thread if s.cb_frozen is not None else None}
         for ob in s.oblig:
             acc['nob'] += 1
+            if ob.kind in ('bound', 'blocking') and s.cb_frozen is not None and ob.thread == s.thread:
+                # freeze mode: the subject, running alone, does not finish
+                d = violation_dict(eng, s, ob, None)
+                d['kind'] = 'hang'
+                d['msg'] = 'running alone with threads %s suspended for ever, the operation does not finish: %s' % (s.cb_frozen, ob.msg)
+                acc['violations'].append(d)
+                continue
             if ob.kind == 'bound':
                 acc['inconclusive'].append(ob.msg)
                 continue
@@ -237,7 +261,7 @@ def _dfs(eng, spec, scenario, final, work, deadline, first_only, acc, stop_at=No
 
 def violation_dict(eng, s, ob, m):
     nondet = {}
-    for mk in s.marks:
+    for mk in (s.marks if m is not None else ()):
         if mk[0] == 'nondet':
             th = mk[4] if len(mk) > 4 else 0
             nondet.setdefault(th, []).append((mk[1], m.eval(mk[2], model_completion=True).as_long()))
@@ -245,7 +269,7 @@ def violation_dict(eng, s, ob, m):
                                               eng.loc(e.ins).split(' <- ')[0]) for e in s.events
              if e.kind in ('R', 'W', 'U', 'C') and conc.gated(eng, e)]
     return {'kind': ob.kind, 'ident': str(ob.ident), 'msg': str(ob.msg), 'thread': ob.thread, 'where': eng.loc(ob.ins),
-            'schedule': schedule_of(eng, s), 'nondet': nondet, 'trace': [str(x) for x in trace]}
+            'schedule': schedule_of(eng, s), 'nondet': nondet, 'trace': [str(x) for x in trace][-400:], 'frozen': s.cb_frozen}
 
 
 def schedule_of(eng, s):
@@ -298,6 +322,9 @@ def validate_sample(spec, scenario, sample, flavor, features):
         for i, (pre, _) in enumerate(spec['threads']):
             if pre:
                 f.write('pre %d %s\n' % (i + 1, pre))
+        if sample.get('frozen'):
+            f.write('freeze %s\n' % ' '.join(str(t) for t in sample['frozen']))
+            f.write('subject %d\n' % sample['subject'])
     res = rp.run_native(path, trace=True)
     if not res['done'] or res['stuck'] or res['assert_fails'] or res['panics']:
         return 0, 'cb translator validation: native run of an explored schedule of %s did not complete cleanly: %s' % (
